@@ -18,11 +18,11 @@ def _tier(tier):
         return dict(
             mc=["PartialSig_n4.cfg", "PartialSig_n7.cfg"],
             mc_r2=None,   # quick: the two-root graph dump below is itself an exhaustive run with the invariants
-            cover=("PartialSig_n4_cover.cfg", 1500, 400),          # cfg, leaves replayed (seeded sample), extra edges
+            cover=("PartialSig_n4_cover.cfg", 1000, 300),          # cfg, leaves replayed (seeded sample), extra edges
             cover_r2=(120, 60),
-            sims=[("PartialSig_n7_thorough.cfg", 7, 1, 60, 24), ("PartialSig_n10_sim.cfg", 10, 1, 40, 30),
-                  ("PartialSig_n13_sim.cfg", 13, 1, 30, 36), ("PartialSig_r3_sim.cfg", 7, 3, 40, 24)],
-            random_runs=120, full_every=40)
+            sims=[("PartialSig_n10_sim.cfg", 10, 1, 40, 30), ("PartialSig_n13_sim.cfg", 13, 1, 30, 36),
+                  ("PartialSig_r3_sim.cfg", 7, 3, 40, 24)],
+            random_runs=120, full_every=40, attacks_n7=False)
     return dict(
         mc=["PartialSig_n4.cfg", "PartialSig_n7.cfg", "PartialSig_n7_thorough.cfg"],
         mc_r2={"perroot": "PartialSig_r2.cfg", "code": "PartialSig_r2_code.cfg"},
@@ -30,7 +30,7 @@ def _tier(tier):
         cover_r2=(None, 3000),
         sims=[("PartialSig_n7_thorough.cfg", 7, 1, 3000, 24), ("PartialSig_n10_sim.cfg", 10, 1, 3000, 30),
               ("PartialSig_n13_sim.cfg", 13, 1, 3000, 36), ("PartialSig_r3_sim.cfg", 7, 3, 2000, 24)],
-        random_runs=4000, full_every=25)
+        random_runs=4000, full_every=25, attacks_n7=True)
 
 
 # (cfg, n, r, removed guard / named deviation)
@@ -218,6 +218,8 @@ def run(tier, seed):
 
     # 4. attack traces (weakened spec) on every role, whole duty from StartDuty
     for cfg, n, r, desc in ATTACKS:
+        if n == 7 and not T["attacks_n7"]:
+            continue   # quick: the 7-operator variants of the same removed guards are left to the thorough tier
         b = _attack_trace(cfg, desc)
         if b is None:
             continue
